@@ -260,3 +260,150 @@ def ident_language_obligations(eng):
                    kind="post", func="han.dlde.Ident.__init__", use_axioms=False,
                    meta={"replay": "replay_ident", "no_relaxed": True, "witness": lambda m: {"text": [ord(c) for c in m.eval(x, model_completion=True).as_string().encode().decode("unicode_escape")] if False else m.eval(x, model_completion=True).as_string()}})
     return [o]
+
+# ----------------------------------------------------------------------------- ModeDReader
+G = z3.Const("G", BYTE_ARR)      # ghost: the whole input stream
+P = D + "ModeDReader."
+MAX_P1 = 8191                    # "each readout well below 8 KiB": bound on unconsumed + collected octets kept between calls
+import itertools
+_calls = itertools.count()
+
+def mk_p1reader(st, hunt, tag="", eng=None):
+    bn = z3.Int("bn" + tag); bpos = z3.Int("bpos" + tag); rn = z3.Int("rn" + tag); gt = z3.Int("g_total" + tag)
+    if eng is not None:
+        for v in (bn, rn, gt):
+            if not any(str(v) == str(x) for x in eng.len_vars): eng.len_vars.append(v)
+    buf = st.new_obj(D + "_ReaderBuffer", {"_buffer": SBytes(G, bn, gt - bn), "_buffer_pos": SInt(bpos)})
+    gp = gt - (bn - bpos)
+    raw = SBytes(G, z3.IntVal(0), gp) if hunt else SBytes(G, rn, gp - rn)
+    rd = st.new_obj(P[:-1], {"_buffer": buf, "_raw_data": raw, "_is_int_hunt_mode": hunt, "$g_total": SInt(gt)})
+    return rd, buf
+
+def p1_view(st, rd):
+    buf = st.getf(rd, "_buffer"); b = st.getf(buf, "_buffer"); bp = to_int(st.getf(buf, "_buffer_pos"))
+    gt = to_int(st.getf(rd, "$g_total")); pl = b.n - bp
+    return dict(buf=buf, b=b, bp=bp, raw=st.getf(rd, "_raw_data"), hunt=st.getf(rd, "_is_int_hunt_mode"), gt=gt, pl=pl, gp=gt - pl)
+
+def p1_inv(st, rd):
+    v = p1_view(st, rd); b, bp, raw, hunt, gt, pl, gp = v["b"], v["bp"], v["raw"], v["hunt"], v["gt"], v["pl"], v["gp"]
+    goals = [("buffer position in range", z3.And(bp >= 0, bp <= b.n, b.n >= 0, gt >= pl)),
+             ("ghost: unconsumed input is the tail of the stream received so far", z3.Or(pl == 0, z3.And(z3.BoolVal(b.arr.eq(G)), b.off + b.n == gt)))]
+    if not isinstance(hunt, bool): raise Unsupported("hunt flag is not a definite bool on this path")
+    if hunt:
+        goals.append(("hunt mode => no collected octets (C16: nothing stale is prefixed to the next readout)", raw.n == 0))
+        return goals
+    e = raw.off + raw.n; fl = S.FIDX(G, z3.BitVecVal(LF, 8), raw.off, e)
+    goals += [("ghost: collected octets are the contiguous stream segment that ends at the read position", z3.And(z3.BoolVal(raw.arr.eq(G)), raw.n >= 1, raw.off >= 0, e == gp)),
+              ("collected octets start with '/'", raw.at(0) == SLASH),
+              ("collected octets start with a complete ASCII identification line", z3.And(fl < e, S.ALLASCII(G, raw.off, fl + 1), S.IDENT(G, raw.off, fl + 1)))]
+    return goals
+
+def p1_witness(hunt, tag="", extra=()):
+    def w(m):
+        ev = lambda t: m.eval(t, model_completion=True)
+        bn = ev(z3.Int("bn" + tag)).as_long(); gt = ev(z3.Int("g_total" + tag)).as_long(); rn = 0 if hunt else ev(z3.Int("rn" + tag)).as_long(); bpos = ev(z3.Int("bpos" + tag)).as_long()
+        Gb = [ev(G[q]).as_long() for q in range(max(0, min(gt + 64, 20000)))]
+        d = {"hunt": hunt, "G": Gb, "g_total": gt, "bn": bn, "pos": bpos, "rn": rn}
+        for name, term in extra:
+            x = ev(term); d[name] = x.as_long() if hasattr(x, "as_long") else str(x)
+        return d
+    return w
+
+def install_readout_init(eng):
+    """call-site form of DataReadout.__init__ (its contract is proved in readout_obligations)"""
+    def apply_init(e, st, args, ctx, node):
+        ref, v = args
+        if not isinstance(v, SBytes): raise Unsupported("DataReadout() argument")
+        end = view_end(v); k = S.LSKIP_B(v.arr, v.off, end)
+        probe = st.fork(); probe.pc.append(z3.Or(v.n < 1, S.is_bytes_ws(v.at(0))))
+        if not e.feasible(probe): k = v.off            # first octet is not white space: lstrip() removes nothing (one unfolding of the definition)
+        fi = S.FIDX(v.arr, z3.BitVecVal(BANG, 8), k, end); fl = S.FIDX(v.arr, z3.BitVecVal(LF, 8), k, end)
+        outs = []
+        for cond, exc in ((k >= end, "IndexError"), (z3.And(k < end, v.arr[k] != SLASH), "ValueError"), (z3.And(k < end, v.arr[k] == SLASH, fi >= end), "ValueError")):
+            s2 = st.fork(); s2.pc.append(cond)
+            if e.feasible(s2): outs.append((s2, Raised(exc, "DataReadout.__init__")))
+        ok = st.fork(); ok.pc += [k < end, v.arr[k] == SLASH, fi < end]
+        crc = fresh("rocrc", S.BV16); ok.pc.append(crc == S.ARC(v.arr, k, fi + 1))
+        ok.heap[ref.oid][1].update({"_readout": SBytes(v.arr, z3.simplify(end - k), k), "_end_pos": SInt(fi - k), "_data_pos": SInt(z3.If(fl < end, fl - k + 1, 0)),
+                                    "_calculated_crc": SBV(crc), "_ident": None})
+        outs.append((ok, None))
+        return outs
+    eng.contracts[D + "DataReadout.__init__"] = Contract(apply=apply_init)
+
+def p1reader_obligations(eng):
+    obls = []
+    lem, ax = S.text_lemmas(Obligation); l2, ax2 = S.fidx_le_lemma(Obligation); l3, ax3 = S.fidx_stable_lemma(Obligation)
+    obls += lem + l2 + l3
+    eng.prelude_axioms += list(ax.values()) + list(ax2.values()) + list(ax3.values())
+    eng.instantiators = [S.fidx_instantiator]
+    install_ident(eng); install_readout_init(eng)
+    def apply_extend(e, st, args, ctx, node):
+        buf, ch = args; b = st.getf(buf, "_buffer")
+        if not (isinstance(ch, SBytes) and st.ghost.get("chunk_is_stream_segment") is not None): raise Unsupported("extend outside read()")
+        gt_before, gt_after = st.ghost["chunk_is_stream_segment"]
+        if z3.is_int_value(z3.simplify(b.n)) and z3.simplify(b.n).as_long() == 0: st.setf(buf, "_buffer", SBytes(G, ch.n, gt_before))
+        else:
+            ctx.oblige(st, "pre:extend(buffer view ends at the stream position)", z3.And(z3.BoolVal(b.arr.eq(G)), b.off + b.n == gt_before), node)
+            st.setf(buf, "_buffer", SBytes(G, z3.simplify(b.n + ch.n), b.off))
+        return [(st, None)]
+    eng.contracts[D + "_ReaderBuffer.extend"] = Contract(apply=apply_extend)
+    fn_rd, mod, cls = eng.funcs[P + "read"]
+    LFb = z3.BitVecVal(LF, 8)
+    for hunt in (True, False):
+        st = State(); rd, buf = mk_p1reader(st, hunt, eng=eng)
+        for _, g in p1_inv(st, rd): st.pc.append(g)
+        v0 = p1_view(st, rd)
+        # precondition = postcondition of the previous read(): no complete line is left unconsumed, sizes within the bound
+        st.pc += [S.FIDX(G, LFb, v0["gp"], v0["gt"]) >= v0["gt"], v0["b"].n + v0["raw"].n <= MAX_P1]
+        cn = z3.Int("cn"); gt0 = v0["gt"]
+        if not any(str(cn) == str(x) for x in eng.len_vars): eng.len_vars.append(cn)
+        st.pc.append(cn >= 0)
+        root = f"{P}read[{'hunt' if hunt else 'collecting'}]"
+        ctx = Ctx(eng, mod, cls, P + "read", root_name=root); ctx.verifying = P + "read"; ctx.fork_implicit = True
+        st.locals = {"self": rd, "data_chunk": SBytes(G, cn, gt0)}          # (ghost) the chunk is the next segment of the stream
+        st.setf(rd, "$g_total", SInt(gt0 + cn)); st.ghost["chunk_is_stream_segment"] = (gt0, gt0 + cn)
+        def hook(st_, lst, item, ctx_, node_, rd=rd):
+            ok = isinstance(item, Ref) and st_.cls(item) == D + "DataReadout"
+            ctx_.oblige(st_, "post:returned object is a DataReadout", z3.BoolVal(ok), node_)
+            if not ok: return
+            r = st_.getf(item, "_readout"); v = p1_view(st_, rd); raw = v["raw"]
+            e = view_end(r); fl = S.FIDX(G, LFb, r.off, e)
+            ctx_.oblige(st_, "post:returned readout is byte-identical to a contiguous stream segment ending at the read position", z3.And(z3.BoolVal(r.arr.eq(G)), e == v["gp"], r.n >= 1), node_)
+            ctx_.oblige(st_, "post:returned readout is exactly the collected octets", z3.And(z3.BoolVal(raw.arr.eq(r.arr)), raw.off == r.off, raw.n == r.n), node_)
+            ctx_.oblige(st_, "post:returned readout starts with an ASCII identification line", z3.And(r.at(0) == SLASH, fl < e, S.ALLASCII(G, r.off, fl + 1), S.IDENT(G, r.off, fl + 1)), node_)
+            ctx_.oblige(st_, "post:returned readout ends with a line that starts with '!' and ends with LF", z3.And(G[e - 1] == LF, to_int(st_.getf(item, "_end_pos")) < r.n), node_)
+        eng.list_append_hook = hook
+        def havoc(st_h, e, rd=rd):
+            outs = []
+            for h2 in (True, False):
+                s2 = st_h.fork(); tag = f"__l{next(_calls)}"
+                rd2, buf2 = mk_p1reader(s2, h2, tag=tag, eng=e)
+                s2.heap[rd.oid] = (s2.heap[rd2.oid][0], s2.heap[rd2.oid][1]); del s2.heap[rd2.oid]
+                outs.append(s2)
+            return outs
+        def inv(st_, e, rd=rd, gt0=gt0, cn=cn):
+            v = p1_view(st_, rd)
+            return list(p1_inv(st_, rd)) + [("ghost: stream length", v["gt"] == gt0 + cn)]
+        def dec(st_, e, rd=rd): return p1_view(st_, rd)["pl"]
+        eng.loop_specs[(P + "read", 0)] = (inv, dec, {}, havoc)
+        for st1, flow, val in eng.exec_block(fn_rd.body, st, ctx):
+            eng.stats["paths"] += 1
+            if not eng.feasible(st1): continue
+            if flow == RAISE:
+                ctx.oblige(st1, f"raises:C14 nothing escapes ({val.exc}: {val.info})", z3.BoolVal(False), fn_rd); continue
+            v = p1_view(st1, rd)
+            for name, g in p1_inv(st1, rd): ctx.oblige(st1, f"post:{name}", g, fn_rd)
+            ctx.oblige(st1, "post:no complete line is left unconsumed", S.FIDX(G, LFb, v["gp"], v["gt"]) >= v["gt"], fn_rd)
+            ctx.oblige(st1, f"post:C19 len(buffer) + len(collected) <= {MAX_P1}", v["b"].n + v["raw"].n <= MAX_P1, fn_rd)
+            ctx.oblige(st1, "post:result is the list of completed readouts", z3.BoolVal(isinstance(val, (GhostList, list))), fn_rd)
+        for o in ctx.obls: o.meta.update(replay="replay_p1_read", witness=p1_witness(hunt, extra=[("cn", cn)]))
+        obls += ctx.obls
+    eng.list_append_hook = None
+    return obls
+
+
+def group_readout(repo):
+    eng = mk_engine(repo); return eng, readout_obligations(eng), {}
+def group_p1reader(repo):
+    eng = mk_engine(repo); return eng, p1reader_obligations(eng), {}
+P1_FUNCS = [P + "read", P + "is_in_hunt_mode"] + [D + "_ReaderBuffer." + x for x in ("__len__", "pop", "extend", "clear", "trim_buffer_to_current_position", "trim_buffer_to_flag_or_end")]
